@@ -78,6 +78,13 @@ InitState(i) ==
    \* instance from completing until it has fired.  Never set by a check's own verdict pass.
    asis    |-> FALSE,
    bfired  |-> {},        \* boundary events whose listener flow has left (as-is mode)
+   \* (as-is) host tasks whose harness is marked active: set by every request, cleared by every
+   \* answer -- with two tokens waiting in one host the first answer switches the boundary
+   \* events off for the other token as well
+   hact    |-> {},
+   \* deliveries already worked off on behalf of an answer that overtook the boundary event's
+   \* own goroutine (trace validation only, see FlushBoundary): <<node, kind, ref>> in order
+   flushed |-> <<>>,
    nkill   |-> 0,         \* tokens stopped by an exit answer / exhausted retries
    cancelled |-> FALSE,   \* the instance's context was cancelled
    parked  |-> FALSE,     \* ... while it had been silent for a while with requests unanswered
@@ -126,7 +133,7 @@ ArriveMove(s, t) ==
   CASE n.kind = "task" ->
          LET k == s.reqn[n.id] + 1 IN
          Mv(Lab("req", n.id, k),
-            [s EXCEPT !.reqn[n.id] = k,
+            [s EXCEPT !.reqn[n.id] = k, !.hact = @ \cup {n.id},
                       !.tok = AddToks(rest, {Tok(n.id, "req", k, "", t.tag, t.inst)})])
     [] n.kind = "end" ->
          \* the end events of an embedded sub-process are not observable from
@@ -282,7 +289,7 @@ SubExitMoves(s) ==
 (*           (must be worked off first; concurrent deliveries are unordered)  *)
 Listeners(s, c) ==
   IF Node(s.p, c).kind = "boundary"
-  THEN IF s.asis /\ c \in s.bfired THEN {}
+  THEN IF s.asis /\ (c \in s.bfired \/ (Node(s.p, Node(s.p, c).attached).kind = "task" /\ Node(s.p, c).attached \notin s.hact)) THEN {}
        ELSE {t \in Toks(s) : t.at = Node(s.p, c).attached /\ t.st \in {"req", "sub"}}
   ELSE {t \in Toks(s) : t.at = c /\ t.st = "listen"}
 Arriving(s, c) == {t \in Toks(s) : t.at = c /\ t.st = "arriving"}
@@ -438,7 +445,7 @@ Store(i, n, vars, payload) ==
   IN  [v \in DOMAIN vars \cup W |-> IF v \in W THEN payload[v] ELSE vars[v]]
 
 AnswerOK(s, t, payload) ==
-  [s EXCEPT !.vars = Store(s.p, Node(s.p, t.at), @, payload),
+  [s EXCEPT !.vars = Store(s.p, Node(s.p, t.at), @, payload), !.hact = @ \ {t.at},
             !.tok  = AddToks(DelTok(@, t), {[t EXCEPT !.st = "in", !.occ = 0, !.att = 0, !.cands = {}]})]
 
 (* An answer carrying an error: the engine first reports it (error trace),   *)
@@ -446,7 +453,8 @@ AnswerOK(s, t, payload) ==
 (* stored), stops the token (exit), or requests the same task again at most  *)
 (* the given number of additional times (retry).                             *)
 AnswerErr(s, t, payload, kind, n) ==
-  [s EXCEPT !.tok = AddToks(DelTok(@, t),
+  [s EXCEPT !.hact = @ \ {t.at},
+            !.tok = AddToks(DelTok(@, t),
        {[t EXCEPT !.st = "errp", !.mode = kind, !.mn = n, !.pl = payload, !.cands = {}]})]
 
 AnswerAny(s, t, payload, kind, n) ==
@@ -469,7 +477,7 @@ TaskErrMoves(s) ==
 RereqMoves(s) ==
   { LET k == s.reqn[t.at] + 1 IN
     Mv(Lab("req", t.at, k),
-       [s EXCEPT !.reqn[t.at] = k,
+       [s EXCEPT !.reqn[t.at] = k, !.hact = @ \cup {t.at},
                  !.tok = AddToks(DelTok(@, t), {[t EXCEPT !.st = "req", !.occ = k]})])
     : t \in {u \in Toks(s) : u.st = "rereq"} }
 
